@@ -182,6 +182,14 @@ def programs(tier):
     # data reached only as data, several entry points
     yield {'k': 'prog', 'cpu': '6800', 'src': '\torg $100\n\tldaa tab\n\tldx #tab\n\tjmp fin\ntab:\tfcb 1,2,3\nfin:\tswi\n', 'tag': 'data'}
     yield {'k': 'prog', 'cpu': '6800', 'src': '\torg $100\ne1:\tnop\n\trts\ne2:\tclra\n\trts\ne3:\tjsr e1\n\trts\n', 'tag': 'entries', 'entries': [0x100, 0x102, 0x104]}
+    # entry point INSIDE a loop: the loop head is found later through the backward branch and runs into the block found first
+    # (used areas are merged downwards), with 0..3 instructions in front of the entry and a branch target near the end
+    for pre in range(0, 4):
+        head = ['\tinx', '\tstaa $40', '\tdecb'][:pre]
+        src = '\torg $100\nloop:%s\nentry:\tldaa $41\n\tbeq done\n\tdecb\n\tbne loop\ndone:\trts\n' % ('\n'.join(head) if head else '\tnop')
+        ent = 0x100 + sum({'\tinx': 1, '\tstaa $40': 2, '\tdecb': 1}[h] for h in head) + (0 if head else 1)
+        yield {'k': 'prog', 'cpu': '6800', 'src': src, 'tag': 'entry inside a loop, %d instructions before it' % pre, 'entries': [ent]}
+    yield {'k': 'prog', 'cpu': '87C00', 'src': '\torg 256\nloop:\tinc a\n\tnop\nentry:\tdec b\n\tjr z,done\n\tnop\n\tjr t,loop\ndone:\tret\n', 'tag': 'entry inside a loop', 'entries': [0x102]}
     # 4004: page-relative jumps around the page end
     for pos in (0xf8, 0xfd, 0xfe, 0xff, 0x100, 0x1fe):
         for kind in ('jcn z,', 'isz r3,'):
